@@ -111,6 +111,13 @@ class Result:
     def violation(self, what: str, case, mechanism: str | None = None, **extra) -> None:
         v = {'what': what, 'mechanism': mechanism, 'case': jsonable(case)}
         v.update(jsonable(extra))
+        site_log = os.environ.get('KVERIF_SITE_LOG')
+        if site_log:
+            # sensitivity audit of the monitors (tools/site_audit.py): which violation sites ever fire on a broken tree
+            import sys
+            fr = sys._getframe(1)
+            with open(site_log, 'a') as f:
+                f.write(f'{os.path.basename(fr.f_code.co_filename)}:{fr.f_lineno}\n')
         # keep the shard output bounded: many identical failures are summarised
         if len(self.violations) < 200:
             self.violations.append(v)
